@@ -407,7 +407,7 @@ impl Property for C20 {
     const ID: &'static str = "C20";
     type Case = Case;
     fn rule() -> String {
-        "cases = (run-time type, value, wrapper decoration, serializer options): values of the C13 grammar decorated at random nodes with FlowSeq / FlowMap / LitStr / FoldStr / Commented / SpaceAfter (nested wrappers, wrappers around containers); comments from a pool containing '#', line breaks (LF, CR, NEL, LS), YAML syntax ('key: value', '- item'), quotes, NUL, tabs, long text; literal / folded strings with leading blanks, 0-3 trailing newlines, very long words, tabs, control characters. Exhaustive: every comment x every scalar kind x 4 positions, every block string x {LitStr, FoldStr} x 4 positions x option family; random decorations of random trees x random options. Oracle: the wrapped output is one document; it deserializes into the bare run-time type as the original value, and its untyped view equals the harness' own ground-truth tree (strings under the explicit folded wrapper compared modulo one trailing line break); a fixed struct of concrete wrapped types (FlowSeq<Vec>, FlowMap<BTreeMap>, Commented<String>, SpaceAfter<BTreeMap>, LitString, FoldString, nested) round-trips into the wrapped types. Cases whose bare value does not itself round-trip are C12/C13 matters and are skipped (counted). Non-trivial: a wrapper below the root or adversarial comment content.".into()
+        "cases = (run-time type, value, wrapper decoration, serializer options): values of the C13 grammar decorated at random nodes with FlowSeq / FlowMap / LitStr / FoldStr / Commented / SpaceAfter (nested wrappers, wrappers around containers); comments from a pool containing '#', line breaks (LF, CR, NEL, LS), YAML syntax ('key: value', '- item'), quotes, NUL, tabs, long text; literal / folded strings with leading blanks, 0-3 trailing newlines, very long words, tabs, control characters. Exhaustive: every comment x every scalar kind x 4 positions, every block string x {LitStr, FoldStr} x 4 positions x option family; LitStr / FoldStr below every chain of <= 3 (thorough 4) positions x indent x compact; flow wrappers around values that are no collections; random decorations of random trees x random options. Oracle: the wrapped output is one document; it deserializes into the bare run-time type as the original value, and its untyped view equals the harness' own ground-truth tree (strings under the explicit folded wrapper compared modulo one trailing line break); a fixed struct of concrete wrapped types (FlowSeq<Vec>, FlowMap<BTreeMap>, Commented<String>, SpaceAfter<BTreeMap>, LitString, FoldString, nested) round-trips into the wrapped types. Cases whose bare value does not itself round-trip are C12/C13 matters and are skipped (counted). Non-trivial: a wrapper below the root or adversarial comment content.".into()
     }
     fn assumptions() -> Vec<String> {
         vec!["the untyped comparison is skipped under tagged_enums / yaml_12 (reader configuration differs); typed comparison is always done".into()]
